@@ -248,7 +248,12 @@ def treeLine (st : TState) (e : SExp) : TState × String :=
           ({ st3 with dead := true }, s!"diff {kind} node {id}: cache is {c.map showObjs}, model {mc.map showObjs}")
         else if !(st.fuzzy.contains id) && !sameUpToBatchOrder mevs ievs &&
             -- a filtered leaf whose buffer ran full: which events of a Refilter batch were kept depends on the batch order
-            !(isFsubKind kind && mevs.length == evCap && ievs.length == evCap) then
+            !(isFsubKind kind && mevs.length == evCap && ievs.length == evCap) &&
+            -- a plain leaf whose buffer ran full in the middle of a batch: the same holds for that one batch
+            !(kind == "sub" && mevs.length == evCap && ievs.length == evCap &&
+              (let (k, batch) := s.boundaryOf id
+               !batch.isEmpty && sameUpToBatchOrder (mevs.take k) (ievs.take k) &&
+               (ievs.drop k).all (fun e => countEv e (ievs.drop k) ≤ countEv e batch))) then
           ({ st3 with dead := true }, (if kind == "sub" then "reject C05/C10 " else "diff ") ++ s!"{kind} node {id}: events {showEvs ievs}, published {showEvs mevs}")
         else if hasEvents && !stalled && ec != md then
           ({ st3 with dead := true }, s!"reject C11/C12 {kind} node {id}: Events() closed is {ec}, node done is {md}")
